@@ -4891,7 +4891,7 @@ where
   }
 
   fn visit_occurrence(&mut self, o: &Occurrence<'a>) -> visitor::Result<Error<T>> {
-    self.state.occurrence = Some(o.occur);
+    self.state.occurrence = Some(normalize_occur(o.occur));
 
     Ok(())
   }
